@@ -194,6 +194,33 @@ pub fn string_sweep(subject: &str, full: bool) -> Program {
 }
 
 /// indexing and slicing of a vec and a tuple of length `len`
+/// Classification of every ASCII character (block `blk` of 32), alone and next to a letter, a digit
+/// and itself, plus identifier-like words: the character classes of the string functions are those of
+/// ASCII letters, decimal digits and hexadecimal digits, nothing else (no `_`, no space, no sign).
+pub fn ascii_class_sweep(blk: usize) -> Program {
+    let mut b = B { out: Vec::new(), counter: 0 };
+    let mut subjects: Vec<String> = Vec::new();
+    for c in (blk * 32)..(blk * 32 + 32) {
+        let ch = (c as u8) as char;
+        subjects.push(ch.to_string());
+        subjects.push(format!("a{}", ch));
+        subjects.push(format!("{}7", ch));
+        subjects.push(format!("{}{}", ch, ch));
+        subjects.push(format!("F{}f", ch));
+    }
+    if blk == 0 {
+        for w in ["snake_case", "_", "__init__", "a_", "_9", "0x1F", "1e5", "-1", "+1", "1.5", " a", "a ", "é", "aé", "٣", "Ａ", "abcXYZ", "0123456789", "abcdefABCDEF0123456789", "g", "G"] {
+            subjects.push(w.to_string());
+        }
+    }
+    for s in subjects {
+        for m in ["is_alpha", "is_digit", "is_hexdigit"] {
+            b.op(Expr::invoke(Expr::str(&s), m, vec![]));
+        }
+    }
+    Program { main: b.out, modules: vec![] }
+}
+
 pub fn seq_sweep(len: usize) -> Program {
     let mut b = B { out: Vec::new(), counter: 0 };
     let elems: Vec<Expr> = (0..len).map(|k| Expr::str(&format!("e{}", k))).collect();
